@@ -163,8 +163,40 @@ RealClauses(ev) ==
                    [] OTHER -> EnclRound(r, ConstEncl(ev.x.f, ev.x.w), ev.p, ev.r)
   IN IF verdict = "bad" THEN {"post"} ELSE IF verdict = "undecided" THEN {"undecided"} ELSE {}
 
+(* "ivfun" / "civfun": containment of elementary functions of intervals / rectangles (C14, C15): for every sample   *)
+(* member point the spec's own enclosure of the function value must not lie outside the returned interval.         *)
+(* "ivrel" / "civrel": the same with enclosures supplied by the harness (the library's point value at a much       *)
+(* higher precision, widened) -- a relational oracle, used for the gamma family which has no spec-side series.     *)
+Verdicts(vs) == IF "bad" \in vs THEN {"post"} ELSE IF "undecided" \in vs THEN {"undecided"} ELSE {}
+\* membership of a reference enclosure given by two dyadic endpoints
+RefMember(v, j) ==
+  LET lo == DV(F(j.a))  hi == DV(F(j.b))
+      Ge(d) == v[1] = FNInf \/ (v[1] # FInf /\ DyCmp(DV(v[1]), d) <= 0)
+      Le(d) == v[2] = FInf \/ (v[2] # FNInf /\ DyCmp(d, DV(v[2])) <= 0)
+  IN IF ~Ge(hi) \/ ~Le(lo) THEN "bad" ELSE IF Ge(lo) /\ Le(hi) THEN "ok" ELSE "undecided"
+IvFunClauses(ev) ==
+  IF ev.o.k = "x" THEN (IF ev.x.mayraise THEN {} ELSE {"post"})
+  ELSE CASE ev.op = "ivfun" ->
+              LET v == Iv(ev.o)  xs == Pts(ev.x.xs)
+              IN IF ~IvOK(v) THEN {"post"}
+                 ELSE Verdicts({ IF ev.x.f = "atan2" THEN EnclMember(v, Atan2Encl(xs[i], Pts(ev.x.ys)[i], ev.x.w))
+                                 ELSE EnclMember(v, Encl(ev.x.f, xs[i], ev.x.w)) : i \in 1..Len(xs) })
+         [] ev.op = "civfun" ->
+              LET re == Iv(ev.o.re)  im == Iv(ev.o.im)  zs == CPts(ev.x.zs)
+              IN IF ~IvOK(re) \/ ~IvOK(im) THEN {"post"}
+                 ELSE Verdicts(UNION { LET c == CEncl(ev.x.f, zs[i][1], zs[i][2], ev.x.w)
+                                       IN {EnclMember(re, c[1]), EnclMember(im, c[2])} : i \in 1..Len(zs) })
+         [] ev.op = "ivrel" ->
+              LET v == Iv(ev.o)
+              IN IF ~IvOK(v) THEN {"post"} ELSE Verdicts({ RefMember(v, ev.x.refs[i]) : i \in 1..Len(ev.x.refs) })
+         [] ev.op = "civrel" ->
+              LET re == Iv(ev.o.re)  im == Iv(ev.o.im)
+              IN IF ~IvOK(re) \/ ~IvOK(im) THEN {"post"}
+                 ELSE Verdicts(UNION { {RefMember(re, ev.x.refs[i].re), RefMember(im, ev.x.refs[i].im)} : i \in 1..Len(ev.x.refs) })
+
 PostClauses(ev) ==
   CASE ev.op \in {"real", "realround", "realconst"} -> RealClauses(ev)
+    [] ev.op \in {"ivfun", "civfun", "ivrel", "civrel"} -> IvFunClauses(ev)
     [] ev.op = "phi_round" -> \* the golden ratio (1+sqrt 5)/2 correctly rounded: phi ? b  <=>  5 ? (2b-1)^2  (exact, algebraic)
          LET r == F(ev.o)
              CmpPhi(m, e) == LET t == DySub(Dy(ZShl(m, 1), e), Dy(ZOne, 0))          \* 2b - 1
